@@ -155,11 +155,19 @@ package queue
 //@   ensures [head]  q.items[0] == t
 //@   ensures [rest]  forall(j, 1, len(q.items), q.items[j] == old(q.items)[j-1])
 
+// Ghost log of AddLast calls (C03: which task was appended to which queue, in call order).
+//@ ghost nAddLast int
+//@ ghost addLastTask map[int]task.Task
+//@ ghost addLastQueue map[int]*TaskQueue
+
 //@ func (*TaskQueue).AddLast
-//@   prop C05
+//@   prop C05, C03
 //@   opt old=cs
 //@   requires t != nil
-//@   modifies q.items, q.measureActionFn, allelems(task.Task), nMut
+//@   modifies q.items, q.measureActionFn, allelems(task.Task), nMut, nAddLast, addLastTask, addLastQueue
+//@   ghostset nAddLast := nAddLast + 1
+//@   ghostset addLastTask[nAddLast] := t
+//@   ghostset addLastQueue[nAddLast] := q
 //@   ensures [len]   len(q.items) == len(old(q.items)) + 1
 //@   ensures [tail]  q.items[len(q.items)-1] == t
 //@   ensures [rest]  forall(j, 0, len(old(q.items)), q.items[j] == old(q.items)[j])
